@@ -406,6 +406,7 @@ func (e *env) expectStruct(rc *rec, before, after int64, mixed bool) {
 			e.problem("in-memory/"+l.kindName(), "record %d: in-memory %s = %s after Create, expected %s", rc.idx, l.name(), memC, x.canon)
 		}
 	}
+	e.checkShadowed("in-memory", root, fmt.Sprintf("record %d after Create", rc.idx))
 	rc.pkArgs = nil
 	for _, l := range e.m.pks {
 		rc.pkArgs = append(rc.pkArgs, getLeaf(root, l).Interface())
@@ -521,6 +522,24 @@ func (e *env) compareStructSig(sigp string, rc *rec, out reflect.Value, how stri
 			e.problem(sigp+"/"+l.kindName(), "%s: record %d field %s = %s, Create stored %s", how, rc.idx, l.name(), clip(got), clip(x.canon))
 		}
 		e.c.Inc("fields_compared_struct")
+	}
+	e.checkShadowed(sigp, out, how)
+}
+
+// checkShadowed: a field whose column belongs to a field on a shorter path was left zero by the
+// harness; it must still be zero (in the record handed to Create and in every struct that was loaded).
+func (e *env) checkShadowed(sigp string, root reflect.Value, how string) {
+	for _, l := range e.m.shadowed {
+		if v := getLeaf(root, l); !v.IsZero() {
+			if sigp == "in-memory" && l.defFn != "" && e.ret {
+				// one class with the create error below: RETURNING lists the shared column once per field with a
+				// database default, and Scan hands the second copy to the second field declared with that column
+				e.problem("shadowed-default-field/returning-in-memory", "%s: field %s = %s; it was left zero and its column %q belongs to the field on the shorter path, whose returned database default it now holds", how, l.name(), clip(canonGo(l, v)), l.col)
+				continue
+			}
+			e.problem(sigp+"/shadowed-field", "%s: field %s = %s; it was left zero, and its column %q belongs to the field on the shorter path", how, l.name(), clip(canonGo(l, v)), l.col)
+		}
+		e.c.Inc("shadowed_fields_checked_zero")
 	}
 }
 
@@ -782,6 +801,13 @@ func (e *env) runStructShape(shape string, forceKey string) {
 				}
 			}
 		}
+		if mm := scanErrCol.FindStringSubmatch(msg); mm != nil && e.ret {
+			for _, l := range m.shadowed {
+				if l.col == mm[1] && l.defFn != "" {
+					sig = "shadowed-default-field/returning-create-error"
+				}
+			}
+		}
 		e.problem(sig, "Create returned %v", res.Error)
 		e.flush()
 		return
@@ -868,7 +894,8 @@ func (e *env) runMapShape(shape string) {
 			}
 			key := l.col
 			// the Go field name as key, unless that name is the column of another field (see Assumptions)
-			if len(l.path) == 1 && !m.colSet[l.path[0]] && r.Chance(1, 3) {
+			// and no other field at any depth carries the same Go name
+			if len(l.path) == 1 && !m.colSet[l.path[0]] && m.goNames[l.path[0]] == 1 && r.Chance(1, 3) {
 				key = l.path[0]
 			}
 			v := e.mapValue(l, gv)
